@@ -384,6 +384,10 @@ def c11_prop():
                           "either side, receiver handles dropped in a symbolic order: the LAST receiver discards the buffer immediately and closes"))
     quick.append(H(LIFE, "life_witness_mpmc_discard", "witness", replay=("life_mpmc_discard", 0), mask=PALL, witness_bit=2 | 8, est_s=40,
                    bounds="witness twin: two values buffered, closed by the sender, then the only receiver is dropped"))
+    for _fl, _lbl in (("oneshot", "oneshot"), ("oneshot_bc", "oneshot-broadcast"), ("state", "state-broadcast")):
+        quick.append(H(LIFE, "shared_value_%s" % _fl, "hold", replay=("shared_value_%s" % _fl, 0), mask=P(11), est_s=10, est_gb=1,
+                       bounds="shared %s: a receive future (polled or not) outlives its handles: a value accepted before the receiver and/or sender "
+                              "handle is dropped is still delivered" % _lbl))
     quick.append(H(LIFE, "mpmc_handles_n3", "hold", replay=("mpmc_handles", 0), mask=P(11), est_s=30, est_gb=1.5,
                    bounds="shared mpmc handle counting WITHOUT futures: 2 sender + 2 receiver handle slots, 3 clone/drop operations; after each the "
                           "channel is closed exactly if the last handle of a side is gone (observed through try_receive / try_send)"))
@@ -430,6 +434,9 @@ def c15_prop():
         H(TIMER, "hist_c15_k2_wide_a3", "hold", replay=("timer_hist_noop", 3 | (2 << 8) | (1 << 11) | (1 << 12)), mask=P(15), est_s=200, est_gb=3, timeout=1500,
           bounds="E-HIST timer 'wide': K=2 slots, deadlines and clock steps over the FULL u64 range, 3 operations of {poll A|B, drop, advance}; "
                  "next_expiration() = smallest registered deadline after every operation, completion never early"),
+        H(TIMER, "expired_drop_c15", "hold", replay=("timer_expired_drop", 0), mask=P(15), est_s=220, est_gb=5, timeout=1500,
+          bounds="two timers (deadlines d0 < d1 in 1..4, both registration orders), straight line: the earlier one is expired by check_expirations() "
+                 "and then DROPPED without being polled again; next_expiration() afterwards is the other deadline"),
         H(TIMER, "facade_c15", "hold", replay=("timer_facade", 0), mask=P(15), est_s=70, est_gb=2.5,
           bounds="thread-safe Timer facade (TimerFuture over GenericTimerService<CheckLock>), one timer, straight line: register, optional re-poll "
                  "with a waker that differs only in the vtable, clock passes the deadline, check_expirations() with or without modelled lock "
@@ -545,6 +552,9 @@ def c01_prop():
         H(ONESHOT, "step_c01", "step", est_s=40, bounds="E-STEP oneshot K=3 (incl. 'Notified is never reached' = unreachable!() stays unreachable)", **full),
         H(ONESHOT_BC, "step_c01", "step", est_s=40, bounds="E-STEP oneshot-broadcast K=3", **full),
         H(STATE, "step_c01", "step", est_s=40, bounds="E-STEP state-broadcast K=3, ids full u64", **full),
+        H(TIMER, "expired_drop_c01", "hold", replay=("timer_expired_drop", 0), mask=P(1), est_s=220, est_gb=5, timeout=1500,
+          bounds="two timers, straight line: both registered, the earlier one expired by check_expirations() and then DROPPED unpolled: the other "
+                 "one is still in the heap, no panic (fast profile)"),
         H(TIMER, "step_c01_poll", "step", est_s=150, est_gb=2.5, bounds="E-STEP timer K=4: heap = exactly the live registered futures (structural validator), poll", **full),
         H(TIMER, "step_c01_drop", "step", est_s=400, est_gb=3, timeout=1500, bounds="E-STEP timer K=4, drop (heap removal from ANY tree shape)", **full),
         H(TIMER, "step_c01_check2", "step", est_s=400, est_gb=4, timeout=1500, bounds="E-STEP check_expirations over 2 timer futures: expired ones unlinked, pending ones linked", **full),
@@ -1081,3 +1091,7 @@ DECODERS["shared_waker_mpmc"] = decode_raw
 DECODERS["shared_waker_oneshot"] = decode_raw
 DECODERS["shared_waker_oneshot_bc"] = decode_raw
 DECODERS["shared_waker_state"] = decode_raw
+DECODERS["shared_value_oneshot"] = decode_raw
+DECODERS["shared_value_oneshot_bc"] = decode_raw
+DECODERS["shared_value_state"] = decode_raw
+DECODERS["timer_expired_drop"] = decode_raw
